@@ -16,7 +16,7 @@ import (
 var c03Stores = []string{"rmap", "nmap", "nstruct", "rstruct", "ctl", "rmap", "nstruct", "rstruct"}
 
 func c03Gen(r *kit.Rng) *histScenario {
-	sk := c03Stores[r.Intn(len(c03Stores))]
+	sk := store.Variant(r, c03Stores[r.Intn(len(c03Stores))])
 	st, _ := store.New(sk)
 	caps := st.Caps()
 	onlyUpserts := r.Chance(1, 3)
